@@ -104,10 +104,37 @@ func checkMain(args []string) int {
 	if v := os.Getenv("VERIF_SEED"); v != "" {
 		seed, _ = strconv.Atoi(v)
 	}
+	var oldLed ledgerFile
+	ledPath := filepath.Join(verifRoot, "ledger", prop+".json")
 	if *reset {
-		os.Remove(filepath.Join(verifRoot, "ledger", prop+".json"))
+		if data, err := os.ReadFile(ledPath); err == nil {
+			json.Unmarshal(data, &oldLed)
+		}
+		os.Remove(ledPath)
 	}
-	return runCheck(prop, *tier, seed, *update, nil, "")
+	rc := runCheck(prop, *tier, seed, *update, nil, "")
+	if *reset {
+		// never drop expected obligations silently: show what the new ledger lost
+		var newLed ledgerFile
+		if data, err := os.ReadFile(ledPath); err == nil {
+			json.Unmarshal(data, &newLed)
+		}
+		have := map[string]bool{}
+		for _, o := range newLed.Obligations {
+			have[o] = true
+		}
+		n := 0
+		for _, o := range oldLed.Obligations {
+			if !have[o] {
+				fmt.Println("ledger: no longer expected:", o)
+				n++
+			}
+		}
+		if n > 0 {
+			fmt.Printf("ledger: %d obligations of the previous ledger are gone; make sure each one moved or was renamed on purpose\n", n)
+		}
+	}
+	return rc
 }
 
 // propertyDirs finds the package directories whose contract files mention prop.
